@@ -444,11 +444,12 @@ def position (l : List Nat) (x : Nat) : Option Nat :=
   if i < l.length then some i else none
 
 /-- `get_cycle_count` (reader.rs 946-955) -/
+def subCycle (count : Nat) (cy : Nat → Nat) (e : Nat) : Outcome (Nat → Nat) :=
+  if cy e < count then crash .underflow else ok (upd cy e (cy e - count))
+
 def cycleCount (cyc : Nat → Nat) (path : List Nat) : Outcome ((Nat → Nat) × Nat) :=
   let count := path.foldl (fun c e => min c (cyc e)) U64MAX
-  (Outcome.foldl (fun (cy : Nat → Nat) e =>
-      if cy e < count then crash .underflow else ok (upd cy e (cy e - count))) cyc path).bind
-    fun cy => ok (cy, count)
+  (Outcome.foldl (subCycle count) cyc path).bind fun cy => ok (cy, count)
 
 /-- `unblock` (reader.rs 957-968), fuelled by recursion depth -/
 def unblock : Nat → Nat → List Nat × List (List Nat) → Outcome (List Nat × List (List Nat))
@@ -522,11 +523,14 @@ def lookForCircuit (f : Func) (bs : List Nat) (start : Nat) :
           (noteBlocked f.arcs bs start v blk.destination s).bind fun s => ok (s, found, count)
 
 /-- `get_cycles_count` (reader.rs 1032-1058) -/
+def cyclesStep (f : Func) (fuel : Nat) (bs : List Nat) (acc : (Nat → Nat) × Nat) (b : Nat) :
+    Outcome ((Nat → Nat) × Nat) :=
+  (lookForCircuit f bs b fuel b ⟨acc.1, [], [], []⟩).bind fun (s, _, c) =>
+    if acc.2 + c > U64MAX then crash .overflow else ok (s.cyc, acc.2 + c)
+
 def cyclesCount (f : Func) (fuel : Nat) (bs : List Nat) (cyc : Nat → Nat) :
     Outcome ((Nat → Nat) × Nat) :=
-  Outcome.foldl (fun (acc : (Nat → Nat) × Nat) b =>
-      (lookForCircuit f bs b fuel b ⟨acc.1, [], [], []⟩).bind fun (s, _, c) =>
-        if acc.2 + c > U64MAX then crash .overflow else ok (s.cyc, acc.2 + c)) (cyc, 0) bs
+  Outcome.foldl (cyclesStep f fuel bs) (cyc, 0) bs
 
 /-- `acc + counter[e]` over a list of arc ids (reader.rs 1069-1072) -/
 def sumCounters (arcs : List Arc) (cnt : Nat → Nat) : List Nat → Nat → Outcome Nat
@@ -559,16 +563,18 @@ def setCycles (arcs : List Arc) (cnt : Nat → Nat) : List Nat → (Nat → Nat)
 def circuitFuel (f : Func) : Nat := f.blocks.length + 2
 
 /-- `get_line_count` (reader.rs 1060-1089) for a line that lives in the blocks `bs` -/
+def lineEntryStep (f : Func) (cnt : Nat → Nat) (bs : List Nat) (acc : (Nat → Nat) × Nat)
+    (b : Nat) : Outcome ((Nat → Nat) × Nat) :=
+  match f.blocks[b]? with
+  | none => crash .idxBlock
+  | some blk =>
+    (if b = 0 then sumCounters f.arcs cnt blk.destination acc.2
+     else sumEntering f.arcs cnt bs blk.source acc.2).bind fun count =>
+    (setCycles f.arcs cnt blk.destination acc.1).bind fun cyc => ok (cyc, count)
+
 def getLineCount (f : Func) (cnt : Nat → Nat) (bs : List Nat) (cyc : Nat → Nat) :
     Outcome ((Nat → Nat) × Nat) :=
-  (Outcome.foldl (fun (acc : (Nat → Nat) × Nat) b =>
-      match f.blocks[b]? with
-      | none => crash .idxBlock
-      | some blk =>
-        (if b = 0 then sumCounters f.arcs cnt blk.destination acc.2
-         else sumEntering f.arcs cnt bs blk.source acc.2).bind fun count =>
-        (setCycles f.arcs cnt blk.destination acc.1).bind fun cyc => ok (cyc, count))
-    (cyc, 0) bs).bind fun (cyc, count) =>
+  (Outcome.foldl (lineEntryStep f cnt bs) (cyc, 0) bs).bind fun (cyc, count) =>
   (cyclesCount f (circuitFuel f) bs cyc).bind fun (cyc, c) =>
     if count + c > U64MAX then crash .overflow else ok (cyc, count + c)
 
